@@ -3,12 +3,14 @@
 set -euo pipefail
 export GOFLAGS=-mod=mod GOPROXY=off GOSUMDB=off GOTOOLCHAIN=local CGO_ENABLED=1
 ROOT=${VERIF_ROOT:-/verif}
+REPO=${VERIF_REPO:-/repo}
+export VERIF_REPO=$REPO
 mkdir -p "$ROOT/.build/seam"
 OV=$(mktemp "$ROOT/.build/ov.XXXXXX.json")
 trap 'rm -f $OV' EXIT
 VERIF_ROOT=$ROOT python3 "$ROOT/tools/mkoverlay.py" "$OV"
-(cd /repo && go build -tags verif -overlay "$OV" -o "$ROOT/.build/seamgen" ./zzverif/cmd/seamgen)
+(cd "$REPO" && go build -tags verif -overlay "$OV" -o "$ROOT/.build/seamgen" ./zzverif/cmd/seamgen)
 rm -rf "$ROOT/.build/seam/src"; mkdir -p "$ROOT/.build/seam/src"
-(cd /repo && "$ROOT/.build/seamgen" "$ROOT/.build/seam/src" "$ROOT/.build/seam/overlay.json")
+(cd "$REPO" && "$ROOT/.build/seamgen" "$ROOT/.build/seam/src" "$ROOT/.build/seam/overlay.json")
 VERIF_ROOT=$ROOT python3 "$ROOT/tools/mkoverlay.py" "$OV" --merge "$ROOT/.build/seam/overlay.json"
-(cd /repo && go build -tags verif -overlay "$OV" -o "$ROOT/.build/vmain-seam" ./zzverif/cmd/vmain)
+(cd "$REPO" && go build -tags verif -overlay "$OV" -o "$ROOT/.build/vmain-seam" ./zzverif/cmd/vmain)
